@@ -386,6 +386,17 @@ func instantOfMs(ms int64) time.Time {
 	return time.Unix(sec, rem*1000000)
 }
 
+// cnForm is the documented 24-character form of an id, written down on the harness side: year, month, day, hour,
+// minute, second (2 digits each, 4 for the year) and millisecond (3 digits) of timestamp+epoch in Asia/Shanghai, then
+// the remaining low bits as 7 decimal digits. It does not call CnStyle.
+func cnForm(c Cfg, s IDSpec) string {
+	abs := s.TS + c.EpochMs
+	t := instantOfMs(abs).In(locs[1])
+	y, m, d := t.Date()
+	hh, mm, ss := t.Clock()
+	return fmt.Sprintf("%04d%02d%02d%02d%02d%02d%03d%07d", y, int(m), d, hh, mm, ss, abs%1000, s.Low)
+}
+
 // checkOne runs every single-id clause on one id. It returns the fields the
 // code reported (used by the ordering clause).
 func checkOne(res *vkit.Result, c Cfg, s IDSpec) (ts, node, step int64) {
@@ -412,6 +423,16 @@ func checkOne(res *vkit.Result, c Cfg, s IDSpec) (ts, node, step int64) {
 	}
 	if tt, n3, s3 := snowflake.IDParseEx(id); !tt.Equal(instantOfMs(abs)) || n3 != node || s3 != step {
 		res.Failf("IDParseEx", "%s: IDParseEx = (%v,%d,%d), want (%v,%d,%d)", ctx, tt, n3, s3, instantOfMs(abs).UTC(), node, step)
+		return
+	}
+	// the 24 characters written down by the harness from the documented form (a string that comes from storage, not
+	// from a CnStyle call of this process) convert to the id - asked BEFORE CnStyle sees the id
+	built := cnForm(c, s)
+	if got, err := snowflake.FromChStyle(built); err != nil {
+		res.Failf("FromChStyle/built-error", "%s: FromChStyle(%q) fails: %v (the string is the documented form of the id - 17 digits of Shanghai time, 7 digits of the low bits - built by the harness, CnStyle has not been called for the id)", ctx, built, err)
+		return
+	} else if got != id {
+		res.Failf("FromChStyle/built", "%s: FromChStyle(%q) = %d, want %d (the string is the documented form of the id - 17 digits of Shanghai time, 7 digits of the low bits - built by the harness, CnStyle has not been called for the id)", ctx, built, got, id)
 		return
 	}
 	str := snowflake.CnStyle(id)
@@ -986,6 +1007,9 @@ type CaseSetup struct {
 	UseLowest bool    `json:"use_lowest"`
 	Reverse   bool    `json:"reverse"` // options given in reverse order
 	Probe     IDSpec  `json:"probe"`   // low bits are cut to the resulting width
+	// Local: as in CaseCodec - the zone the process-local zone is during the case (0: untouched). The configured epoch
+	// is the instant the caller passed, whatever wall-clock reading it has in the process zone.
+	Local int `json:"local_zone,omitempty"`
 }
 
 func GenSetup(t *rapid.T) CaseSetup {
@@ -997,6 +1021,17 @@ func GenSetup(t *rapid.T) CaseSetup {
 	c.Mode = rapid.SampledFrom([]uint8{8, 9, 10}).Draw(t, "mode")
 	e := genCfg(t).EpochMs
 	c.Epoch = Instant{Off: e - epoch2000UTC, Ns: rapid.SampledFrom([]int32{0, 1, 999999}).Draw(t, "epochNs"), Loc: rapid.IntRange(0, len(locs)-1).Draw(t, "epochLoc")}
+	// one case in four runs with a daylight-saving process zone; two of three epochs then lie within an hour of an
+	// instant at which THAT zone sets its clocks back (both passes through the repeated wall-clock interval)
+	if rapid.IntRange(0, 3).Draw(t, "localKind") == 0 {
+		k := rapid.IntRange(0, len(dstNames)-1).Draw(t, "localZone")
+		c.Local = firstDSTLoc + k
+		if rapid.IntRange(0, 2).Draw(t, "epochAtFallback") > 0 {
+			if o, ok := genFallbackTS(t, Cfg{EpochMs: epoch2000UTC, NodeBits: 8}, k, "epoch", e%1000); ok && epoch2000UTC+o <= epochMaxGen {
+				c.Epoch.Off = o
+			}
+		}
+	}
 	exp := c.expected()
 	c.Probe = genID(t, exp, "probe")
 	return c
@@ -1030,6 +1065,7 @@ func ExecSetup(c CaseSetup) *vkit.Result {
 	}
 	restore := snowflake.VerifSetConfig(c.Base.EpochMs, c.Base.NodeBits, c.Base.NodeLow)
 	defer restore()
+	defer setLocal(c.Local)()
 
 	var opts []snowflake.Option
 	if c.UseEpoch {
@@ -1060,6 +1096,9 @@ func ExecSetup(c CaseSetup) *vkit.Result {
 		if c.Epoch.Ns != 0 {
 			res.Class("UseEpoch-with-sub-ms-part")
 		}
+		if inFallback(c.Local, exp.EpochMs) {
+			res.Class("UseEpoch-in-repeated-wall-clock-interval-of-the-process-zone")
+		}
 	}
 	if c.UseMode {
 		res.Class(fmt.Sprintf("UseNodeMode(%d)", c.Mode))
@@ -1073,6 +1112,7 @@ func ExecSetup(c CaseSetup) *vkit.Result {
 	if len(opts) == 0 {
 		res.Class("no-option")
 	}
+	classifyLocal(res, c.Local)
 	res.NonTrivial = len(opts) > 0 && node != 0 && step != 0 && p.TS >= 1<<20
 	return res
 }
@@ -1179,8 +1219,10 @@ func ExecConc(c CaseConc) *vkit.Result {
 				}
 			}()
 			<-start
+			kept := make([]string, len(ids))   // the string CnStyle handed out for each own id in this round
+			copies := make([][]byte, len(ids)) // its bytes, copied at once
 			for round := 0; round < c.Rounds && r.Fail == nil; round++ {
-				for _, s := range ids {
+				for j, s := range ids {
 					// fields / recombination, IDParse, IDParseEx, CnStyle 24 digits, FromChStyle(CnStyle(id)) == id
 					if checkOne(r, c.Cfg, s); r.Fail != nil {
 						return
@@ -1193,6 +1235,35 @@ func ExecConc(c CaseConc) *vkit.Result {
 					checkInterval(r, "TimeIDRange", c.Cfg, mn, mx, abs/1000, abs/1000, edgeProbes(c.Cfg, abs/1000, abs/1000),
 						fmt.Sprintf("TimeIDRange(%s)", at.UTC().Format(time.RFC3339Nano)))
 					if r.Fail != nil {
+						return
+					}
+					// TimeBetweenID of an interval of its own: from the earlier to the later of (first own id, this id).
+					// The begin instant stays the same for many calls of a goroutine while the other goroutines ask
+					// for theirs.
+					bAbs, eAbs := ids[0].TS+c.EpochMs, abs
+					if bAbs > eAbs {
+						bAbs, eAbs = eAbs, bAbs
+					}
+					bt, et := instantOfMs(bAbs), instantOfMs(eAbs)
+					mn, mx = snowflake.TimeBetweenID(bt, et)
+					checkInterval(r, "TimeBetweenID", c.Cfg, mn, mx, bAbs/1000, eAbs/1000, edgeProbes(c.Cfg, bAbs/1000, eAbs/1000),
+						fmt.Sprintf("TimeBetweenID(%s, %s)", bt.UTC().Format(time.RFC3339Nano), et.UTC().Format(time.RFC3339Nano)))
+					if r.Fail != nil {
+						return
+					}
+					kept[j] = snowflake.CnStyle(c.Cfg.id(s))
+					copies[j] = append(copies[j][:0], kept[j]...)
+				}
+				// the strings of the whole walk, kept: still what was handed out, and converting back to their ids in
+				// the opposite order (after all the other conversions)
+				for j := len(ids) - 1; j >= 0; j-- {
+					id := c.Cfg.id(ids[j])
+					if kept[j] != string(copies[j]) {
+						r.Failf("CnStyle/retained", "%v id=%d: the string CnStyle handed out was %q, after later conversions the same string value reads %q", c.Cfg, id, copies[j], kept[j])
+						return
+					}
+					if got, err := snowflake.FromChStyle(kept[j]); err != nil || got != id {
+						r.Failf("FromChStyle/kept", "%v id=%d: FromChStyle(%q) = %d, %v for the string CnStyle(id) handed out earlier (other ids converted in between), want %d", c.Cfg, id, kept[j], got, err, id)
 						return
 					}
 				}
@@ -1214,7 +1285,7 @@ func ExecConc(c CaseConc) *vkit.Result {
 
 // ---------------------------------------------------------------------------
 
-const codecRule = "rapid: configuration (node bits 8/9/10 x node-at-lowest x epoch: 2000-01-01, package default, 2026, any second / any millisecond in 2000..2026, or a future epoch up to 2200) through VerifSetConfig; two ids built from (timestamp, low bits): timestamp from {0, 1, 2^k-1/2^k/2^k+1, top of the width and the 100 000 ms below it, both sides of the year-2262 nanosecond horizon, anywhere behind it, around today, rapid-uniform, evenly spread}, low bits from {0, all ones, around 10^6, rapid-uniform, evenly spread, node x step with each from {0,1,max,top bit,rapid-uniform,evenly spread}}; one case in six runs with the process-local zone replaced by New York / Berlin / Lord Howe (every second first id then within an hour of a fall-back instant of that zone), one in six has the first id on a rare calendar day in Shanghai time (Feb 28/29, Mar 1, Dec 31, Jan 1, month ends/starts of century 2000-2400, leap, non-leap or any year, first/last millisecond of the day; epoch moved or node width reduced so that the day is inside the width); the second id is equal / same timestamp / same low bits / numerically adjacent / adjacent timestamp with opposing low bits / node and step exchanged / independent. Oracle per id: IDFields in range and recombining to the id by the documented layout, IDParse = field+epoch, IDParseEx the same instant, CnStyle 24 digits, FromChStyle(CnStyle(id)) == id; per pair: id order == (timestamp, remaining bits) order. Non-trivial: first id has non-zero node and step bits and timestamp >= 2^20; distinct = distinct case JSON"
+const codecRule = "rapid: configuration (node bits 8/9/10 x node-at-lowest x epoch: 2000-01-01, package default, 2026, any second / any millisecond in 2000..2026, or a future epoch up to 2200) through VerifSetConfig; two ids built from (timestamp, low bits): timestamp from {0, 1, 2^k-1/2^k/2^k+1, top of the width and the 100 000 ms below it, both sides of the year-2262 nanosecond horizon, anywhere behind it, around today, rapid-uniform, evenly spread}, low bits from {0, all ones, around 10^6, rapid-uniform, evenly spread, node x step with each from {0,1,max,top bit,rapid-uniform,evenly spread}}; one case in six runs with the process-local zone replaced by New York / Berlin / Lord Howe (every second first id then within an hour of a fall-back instant of that zone), one in six has the first id on a rare calendar day in Shanghai time (Feb 28/29, Mar 1, Dec 31, Jan 1, month ends/starts of century 2000-2400, leap, non-leap or any year, first/last millisecond of the day; epoch moved or node width reduced so that the day is inside the width); the second id is equal / same timestamp / same low bits / numerically adjacent / adjacent timestamp with opposing low bits / node and step exchanged / independent. Oracle per id: IDFields in range and recombining to the id by the documented layout, IDParse = field+epoch, IDParseEx the same instant, FromChStyle(the 24 characters the harness builds from the documented form: Shanghai calendar digits of timestamp+epoch, 3 ms digits, 7 digits of the low bits) == id asked before CnStyle sees the id, CnStyle 24 digits, FromChStyle(CnStyle(id)) == id; per pair: id order == (timestamp, remaining bits) order. Non-trivial: first id has non-zero node and step bits and timestamp >= 2^20; distinct = distinct case JSON"
 
 var PartCodec = &vkit.Part[CaseCodec]{
 	Property: Property, Name: "codec",
@@ -1242,7 +1313,7 @@ var PartCalendar = &vkit.Part[CaseCodec]{
 	Gen:  GenCodec, Exec: ExecCodec,
 }
 
-const concRule = "rapid: configuration as part codec, fixed for the case; 4-8 goroutines, each with 4-16 ids of its own (same mixture as part codec), walk their lists 1-4 times after a common start signal: per id the single-id oracle of part codec (IDFields in range / recombine, IDParse, IDParseEx, CnStyle 24 digits, FromChStyle(CnStyle(id)) == id) and TimeIDRange of the id's instant decided on the 19 constructed edge ids of part ranges. The verdict is the answers, not the timing: every goroutine must get what it gets alone. Non-trivial: at least two goroutines"
+const concRule = "rapid: configuration as part codec, fixed for the case; 4-8 goroutines, each with 4-16 ids of its own (same mixture as part codec), walk their lists 1-4 times after a common start signal: per id the single-id oracle of part codec (IDFields in range / recombine, IDParse, IDParseEx, FromChStyle(harness-built string) == id, CnStyle 24 digits, FromChStyle(CnStyle(id)) == id), TimeIDRange of the id's instant and TimeBetweenID(earlier, later of the goroutine's first id and this id) decided on the 19 constructed edge ids of part ranges; the strings CnStyle handed out during a walk are kept, re-read (unchanged) and converted back in the opposite order at its end. The verdict is the answers, not the timing: every goroutine must get what it gets alone. Non-trivial: at least two goroutines"
 
 var PartConc = &vkit.Part[CaseConc]{
 	Property: Property, Name: "concurrent",
@@ -1262,7 +1333,7 @@ var PartConcRace = &vkit.Part[CaseConc]{
 
 var PartSetup = &vkit.Part[CaseSetup]{
 	Property: Property, Name: "setup",
-	Rule:  "rapid: a base configuration (VerifSetConfig), then Setup with any subset of UseEpoch(instant 2000..2200 with sub-ms part, any zone) / UseNodeMode(8|9|10) / NodeAtLowest in either order; IDParse of a probe id built for the expected layout (unset options keep the base value, node-at-lowest is sticky) must give field+epoch, node, step. Non-trivial: at least one option and a probe with non-zero node and step and timestamp >= 2^20",
+	Rule:  "rapid: a base configuration (VerifSetConfig), then Setup with any subset of UseEpoch(instant 2000..2200 with sub-ms part, any zone) / UseNodeMode(8|9|10) / NodeAtLowest in either order; one case in four runs with the process-local zone replaced by New York / Berlin / Lord Howe and two of three of its epochs lie within an hour of a fall-back instant of that zone (first or second pass through the repeated wall-clock interval) - the configured epoch is the instant that was passed; IDParse of a probe id built for the expected layout (unset options keep the base value, node-at-lowest is sticky) must give field+epoch, node, step. Non-trivial: at least one option and a probe with non-zero node and step and timestamp >= 2^20",
 	Quick: 12000, Thorough: 20000,
 	Gen: GenSetup, Exec: ExecSetup,
 }
